@@ -342,16 +342,38 @@ func init() {
 }
 
 func evalPair(f1, f2 string, noopt bool) (pan any, problem string) {
+	if pan, problem = evalPairMode(f1, f2, noopt, false); pan != nil || problem != "" {
+		return
+	}
+	// the first fragment is compiled but never started (its context is already cancelled): what its compilation left
+	// in the session (module store, symbols, constants) is what the second fragment is compiled against
+	pan, problem = evalPairMode(f1, f2, noopt, true)
+	if problem != "" {
+		problem += " (first fragment evaluated under a cancelled context)"
+	}
+	return
+}
+
+func evalPairMode(f1, f2 string, noopt, firstCancelled bool) (pan any, problem string) {
 	defer func() {
 		if r := recover(); r != nil {
 			pan = r
+			if firstCancelled {
+				pan = fmt.Sprintf("%v (first fragment evaluated under a cancelled context)", r)
+			}
 		}
 	}()
 	ev := ugo.NewEval(ugo.CompilerOptions{NoOptimize: noopt, ModuleMap: modmap()}, ugo.Map{})
 	ctx, cancel := context.WithTimeout(context.Background(), 2*time.Second)
 	defer cancel()
-	for _, f := range []string{f1, f2, "return 1"} {
-		_, bc, err := ev.Run(ctx, []byte(f))
+	dead, kill := context.WithCancel(context.Background())
+	kill()
+	for i, f := range []string{f1, f2, "return 1"} {
+		cx := ctx
+		if i == 0 && firstCancelled {
+			cx = dead
+		}
+		_, bc, err := ev.Run(cx, []byte(f))
 		_ = err
 		if bc != nil {
 			// compiled (Eval.Run returns the Bytecode also when the run then fails)
